@@ -118,6 +118,17 @@ CLAIMED["C14"] = dict(
          "both runs); FCB/XMCD content other than the default block; format ambiguities listed in the harness.",
     ref="DESIGN.md section 3 C14")
 
+CLAIMED["C10"] = dict(
+    technique="symbolic execution of the real mboot/SDP protocol code in two composed layers: (1) frame layer - the "
+              "device-to-host byte stream / HID report is one arbitrary symbolic byte vector decoded by the real "
+              "interface.read() and compared with a reference decoder (CRC-16/XMODEM as a BV circuit); (2) command "
+              "layer - McuBoot / SDP operations over an arbitrary symbolic sequence of K frame-level events; z3 QF_BV "
+              "decides wire encodings, exactness/completeness of returned data and that faults surface as documented "
+              "exceptions",
+    note="Out of the claim: drivers and timing, transfers above the bounds, multi-operation histories, devices that break "
+         "the protocol (not the link); one recorded finding (short read reported with SUCCESS when cmd_exception is off).",
+    ref="DESIGN.md section 3 C10")
+
 NOT_APPLICABLE = {
     "C18": "quantifies over OS-level crash points of a pickle file and over process schedules around a FileLock; the "
            "deciding code is pickle (C) / the file system / the scheduler - no SPSDK arithmetic or layout to encode; "
